@@ -7,6 +7,8 @@ R18.3 column positions: numeric fields of the writer's format ↔ reader's split
 R18.4 npz directory: every essential property is written and consumed; R-matrix file names agree; lattice and centres
       are loaded before the R-vectors that need them; directory listing is used order-insensitively.
 R18.5 point-group serialisation: keys written by as_dict ↔ keys consumed by the constructors.
+R18.6 Rvectors(...) receive reduced-coordinate shifts.  R18.7 reader / writer options are honoured.
+R18.8 chunked header blocks: every entry once, no empty chunk.  R18.9 shift ownership (constructed with centres; attributes change in pairs).
 
 All rules work on the functions with their private helpers (and local closures) inlined and finite loops over slices
 unrolled; names are resolved through their definitions and small integer / string expressions are folded, so the rules
@@ -35,7 +37,9 @@ EXPLANATION = (
     "prefix returned by _R_mat_npz_filename is folded and compared with the glob pattern / prefix strip / filter of the "
     "loader, the load order is read from the concatenation normal form of the loop's iterable, and the directory listing "
     "in load_npz has no order-dependent use; (R18.5) the dict entries of PointGroup.as_dict / PointSymmetry.as_dict are "
-    "matched with what the constructors read. Not decided: numeric precision of the text formats, equality of bands.")
+    "matched with what the constructors read; (R18.8) the chunked degeneracy header is written in ceil(N/k) non-empty chunks (the readers stop "
+    "after N entries); (R18.9) R-vectors left on a system by a reader are constructed with the centre shifts and the two shift attributes are only "
+    "assigned in pairs outside class Rvectors. Not decided: numeric precision of the text formats, equality of bands.")
 
 HR = "wannierberri/system/system_hr.py"
 TB = "wannierberri/system/system_tb.py"
